@@ -804,7 +804,7 @@ Section TallyQ.
   Lemma popvar_zero_or_pos : forall xs s, acc_ok xs s -> {popvar xs == 0} + {0 < popvar xs}.
   Proof.
     intros xs s OK. destruct (Qlt_le_dec 0 (popvar xs)) as [P | P]; [right; exact P | left].
-    pose proof (popvar_nonneg xs s OK). lra.
+    pose proof (popvar_nonneg xs). lra.
   Qed.
 
   Lemma popvar_zero_iff_all_equal : forall xs, xs <> [] ->
@@ -816,6 +816,9 @@ Section TallyQ.
       rewrite E, H0. ring.
     - rewrite H0. field. lra.
   Qed.
+
+  Lemma nil_dec : forall l : list Q, {l = []} + {l <> []}.
+  Proof. destruct l; [left; reflexivity | right; discriminate]. Qed.
 
   Section History.
     Variable icdf : Q -> res Q.
@@ -906,7 +909,7 @@ Section TallyQ.
       (forall a : Q, 0 <= a -> a <= 1 ->
          (g_confidence_interval NQ icdf s (@ANum NQ a) = NaNres <-> (length xs < 2)%nat)).
     Proof.
-      assert (Dnil : {xs = []} + {xs <> []}) by (destruct xs; [left; reflexivity | right; discriminate]).
+      assert (Dnil : {xs = []} + {xs <> []}) by apply nil_dec.
       assert (D2 : {(length xs < 2)%nat} + {~ (length xs < 2)%nat}) by apply lt_dec.
       repeat split.
       1-2: eapply nan_iff; [apply (mean_spec xs s OK) | apply (mean_spec xs s OK) | exact Dnil]; assumption.
@@ -945,7 +948,7 @@ Section TallyQ.
       (forall b, no_raise (g_excess_kurtosis NQ b s)) /\
       (forall a : Q, 0 <= a -> a <= 1 -> no_raise (g_confidence_interval NQ icdf s (@ANum NQ a))).
     Proof.
-      assert (Dnil : {xs = []} + {xs <> []}) by (destruct xs; [left; reflexivity | right; discriminate]).
+      assert (Dnil : {xs = []} + {xs <> []}) by apply nil_dec.
       assert (D2 : {(length xs < 2)%nat} + {~ (length xs < 2)%nat}) by apply lt_dec.
       repeat split.
       - destruct Dnil as [E | E]; [apply nan_no_raise | eapply res_is_no_raise]; apply (mean_spec xs s OK); exact E.
@@ -982,6 +985,127 @@ Section TallyQ.
     Theorem confidence_interval_invalid_alpha :
       g_confidence_interval NQ icdf s (@ANotFloat NQ) = Raise TypeError /\
       (forall a : Q, ~ (0 <= a /\ a <= 1) -> g_confidence_interval NQ icdf s (@ANum NQ a) = Raise ValueError).
-    Proof. split; [reflexivity | apply (ci_alpha_out_of_range xs s icdf)]. Qed.
+    Proof. split; [reflexivity | apply (ci_alpha_out_of_range s icdf)]. Qed.
   End History.
 End TallyQ.
+
+(* ====================================================================== *)
+(* Rejected observations and initialize -- for EVERY arithmetic, so also    *)
+(* for the binary64 instance that the correspondence check executes         *)
+(* ====================================================================== *)
+Definition rejected (N : Num) (o : pyarg (F N)) : bool :=
+  match o with ONum v => isnan v | _ => true end.
+
+Theorem rejected_unchanged : forall (N : Num) (s : tstate N) (o : pyarg (F N)),
+  rejected N o = true ->
+  (exists k, tregister N s o = Exn k s) /\ state_of (tstep N s (TReg o)) = s.
+Proof.
+  intros N s o H. destruct o as [v | | |]; cbn [rejected] in H; cbn [tstep tregister].
+  - rewrite H. split; [eexists; reflexivity | reflexivity].
+  - split; [eexists; reflexivity | reflexivity].
+  - split; [eexists; reflexivity | reflexivity].
+  - split; [eexists; reflexivity | reflexivity].
+Qed.
+
+(* a history with rejected observations ends in the same state as the
+   history without them *)
+Theorem rejected_have_no_influence : forall (N : Num) ops (s : tstate N),
+  trun N s ops =
+  trun N s (filter (fun op => match op with TReg o => negb (rejected N o) | TInit => true end) ops).
+Proof.
+  induction ops as [| op ops IH]; intros s; [reflexivity |].
+  destruct op as [o |]; cbn [filter].
+  - destruct (rejected N o) eqn:R; cbn [negb].
+    + cbn [trun]. rewrite (proj2 (rejected_unchanged N s o R)). apply IH.
+    + cbn [trun]. apply IH.
+  - cbn [trun]. apply IH.
+Qed.
+
+(* observations before an initialize have no influence on anything after it *)
+Theorem initialize_resets : forall (N : Num) pre post (s : tstate N),
+  trun N s (pre ++ TInit :: post) = trun N (tinit N) post.
+Proof.
+  intros N pre post s. rewrite trun_app. reflexivity.
+Qed.
+
+Theorem initialize_state : forall (N : Num) (s : tstate N), tstep N s TInit = Ok (tinit N).
+Proof. reflexivity. Qed.
+
+(* ====================================================================== *)
+(* Counter                                                                 *)
+(* ====================================================================== *)
+Fixpoint ceffective (acc : list Z) (ops : list cop) : list Z :=
+  match ops with
+  | [] => acc
+  | CInit :: r => ceffective [] r
+  | CReg (CInt z) :: r => ceffective (acc ++ [z]) r
+  | CReg CNotInt :: r => ceffective acc r
+  end.
+
+Definition zsum (zs : list Z) : Z := fold_right Z.add 0%Z zs.
+
+Lemma zsum_app1 : forall zs z, zsum (zs ++ [z]) = (zsum zs + z)%Z.
+Proof. unfold zsum. induction zs; intros; cbn [app fold_right]; [lia | rewrite IHzs; lia]. Qed.
+
+Lemma counter_exact_gen : forall ops acc s,
+  ccount s = zsum acc -> cn s = Z.of_nat (length acc) ->
+  ccount (crun s ops) = zsum (ceffective acc ops) /\
+  cn (crun s ops) = Z.of_nat (length (ceffective acc ops)).
+Proof.
+  induction ops as [| op ops IH]; intros acc s Hc Hn; [split; assumption |].
+  destruct op as [[z |] |]; cbn [crun cstep cregister state_of ceffective].
+  - apply IH; cbn [ccount cn].
+    + rewrite zsum_app1. lia.
+    + rewrite app_length. cbn [length]. lia.
+  - apply IH; assumption.
+  - apply (IH []); reflexivity.
+Qed.
+
+(* the counter reports exactly the sum and the number of its integer
+   increments since the last initialize; a non-int is refused, state unchanged *)
+Theorem counter_exact : forall ops,
+  ccount (crun cinit ops) = zsum (ceffective [] ops) /\
+  cn (crun cinit ops) = Z.of_nat (length (ceffective [] ops)).
+Proof. intros. apply counter_exact_gen; reflexivity. Qed.
+
+Theorem counter_rejects_non_int : forall s, cregister s CNotInt = Exn TypeError s.
+Proof. reflexivity. Qed.
+
+(* ====================================================================== *)
+(* The getters of the pinned tree are NOT total                            *)
+(* ====================================================================== *)
+Definition sq_id (q : Q) : Q := q.
+
+Theorem pinned_kurtosis_raises :
+  exists xs, g_kurtosis_pinned (NumQ sq_id) true (tally_of sq_id xs) = Raise ZeroDivisionError
+             /\ g_kurtosis_pinned (NumQ sq_id) false (tally_of sq_id (1 :: xs)) = Raise ZeroDivisionError.
+Proof. exists [1; 1; 1]. split; vm_compute; reflexivity. Qed.
+
+Theorem pinned_skewness_raises :
+  forall pow15 : Q -> res Q, (forall v, v == 0 -> pow15 v = Val 0) ->
+  exists xs, g_skewness_pinned (NumQ sq_id) pow15 true (tally_of sq_id xs) = Raise ZeroDivisionError.
+Proof.
+  intros pow15 H. exists [1; 1]. unfold g_skewness_pinned.
+  set (s := tally_of sq_id [1; 1]).
+  assert (E : g_variance (NumQ sq_id) true s = Val (tm2 s / inject_Z 2)) by (vm_compute; reflexivity).
+  assert (Z : tm2 s / inject_Z 2 == 0) by (vm_compute; reflexivity).
+  assert (T : (1 <? tn s)%Z = true) by (vm_compute; reflexivity).
+  rewrite T, E. cbn [ofZ NumQ].
+  assert (D : @pdiv (NumQ sq_id) (tm3 s) (inject_Z (tn s)) = Val (tm3 s / inject_Z (tn s))) by (vm_compute; reflexivity).
+  rewrite D, (H _ Z). reflexivity.
+Qed.
+
+Theorem pinned_confidence_interval_raises :
+  forall f : Q -> res Q,
+  exists xs, g_confidence_interval_pinned (NumQ sq_id) (icdf_domain (NumQ sq_id) f)
+               (tally_of sq_id xs) (@ANum (NumQ sq_id) 0) = Raise StatisticsError.
+Proof. intros f. exists [1; 2]. vm_compute. reflexivity. Qed.
+
+(* non-vacuity of the contracts on sq and icdf, and a worked instance *)
+Lemma sq_id_proper : forall a b, a == b -> sq_id a == sq_id b.
+Proof. intros a b H. exact H. Qed.
+Lemma sq_id_pos : forall a, 0 < a -> 0 < sq_id a.
+Proof. intros a H. exact H. Qed.
+Definition icdf_const (p : Q) : res Q := Val 2.
+Lemma icdf_const_total : forall p, 0 < p -> p < 1 -> exists z, icdf_const p = Val z.
+Proof. intros. exists 2. reflexivity. Qed.
